@@ -1434,7 +1434,7 @@ def run(R: Run):
     workdir = tempfile.mkdtemp(prefix="c05-")
     try:
         n_e2e = R.pick(170, 4200)
-        t_budget = R.pick(45, 440)
+        t_budget = R.pick(35, 440)
         t0 = time.time()
         corpus = [
             dict(shape=[8, 200], axis="YX", ns=1, dtype="uint8", blocksize=[32], comp="deflate", predictor=None, nodata=None,
